@@ -1,7 +1,7 @@
 #!/usr/bin/env python3
 """after bin/dbgsess.py: dump the state graph of the (pass 2) validation and show where it got stuck"""
 import re, json, os, subprocess, sys
-d = "/verif/work/dbg"
+d = os.path.join(os.environ.get("VERIF_WORK", "/verif/work"), "dbg")
 vs = sorted([x for x in os.listdir(d) if x.startswith("vs_")], key=lambda x: os.path.getmtime(os.path.join(d, x)))[-1]
 env = dict(os.environ, TRACE=d + "/tr.ndjson", JAVA_TOOL_OPTIONS="-Xss1g -Dtlc2.tool.queue.IStateQueue=StateDeque")
 subprocess.run(["tlc", "-workers", "1", "-dump", d + "/states", "-config", "Trace_Session_run.cfg", "Trace_Session.tla"],
